@@ -56,7 +56,7 @@ class PtrView:
         if exe.axioms:
             for a in exe.axioms:
                 st.assume(a)
-            exe.axioms = []
+            del exe.axioms[:]
         if isinstance(v, Ptr):
             return PtrView(exe, st, v)
         if exe.sem.int_mode == 'math' and isinstance(ct, TInt) and not z3.is_int_value(v):
@@ -190,7 +190,7 @@ def make_helpers(exe):
             if exe.axioms:
                 for ax in exe.axioms:
                     x._st.assume(ax)
-                exe.axioms = []
+                del exe.axioms[:]
             return z3.ZeroExt(WIDE - 64, a) if isbv else a
         if isinstance(x, NullConst):
             return z3.BitVecVal(0, WIDE) if isbv else z3.IntVal(0)
@@ -222,6 +222,13 @@ def make_helpers(exe):
             return x & (al - 1)
         return x % al
 
+    def elem(x, j):
+        """element at ABSOLUTE index j of the array the pointer view x points into (trigger-friendly: Select(arr, j))."""
+        p = x._p
+        if isinstance(p.ct, TArr):
+            p = p.with_(idx=p.idx + (0,), ct=p.ct.of)
+        return x._deref(exe._normalize(p).with_(idx=exe._normalize(p).idx[:-1] + (narrow_idx(exe, j),)))
+
     def imin(a, b):
         return z3.If(a <= b, a, b)
 
@@ -249,6 +256,32 @@ def make_helpers(exe):
     def real(v):
         return z3.RealVal(str(v))
 
+    def num_of_int(x):
+        """the mjtNum an integer converts to (same function the executor uses in opaque mode)."""
+        from .sem import OpaqueNum
+        if exe.sem.num_mode == 'opaque':
+            return z3.Function('opq_of_int', z3.IntSort(), OpaqueNum)(x)
+        if exe.sem.num_mode == 'real':
+            return z3.ToReal(x)
+        return z3.fpRealToFP(z3.RNE(), z3.ToReal(x), z3.Float64())
+
+    def byte_of_num(v):
+        from .sem import OpaqueNum
+        return z3.Function('opq_to_unsigned_char', OpaqueNum, z3.IntSort())(v)
+
+    def bool_of_num(v):
+        """C conversion mjtNum -> bool: 1 unless the value compares equal to zero."""
+        from .sem import _opq_zero
+        if exe.sem.num_mode == 'opaque':
+            return z3.If(v == _opq_zero, 0, 1)
+        if exe.sem.num_mode == 'real':
+            return z3.If(v == 0, 0, 1)
+        return z3.If(z3.fpIsZero(v), 0, 1)
+
+    def num_zero():
+        from .sem import _opq_zero
+        return _opq_zero if exe.sem.num_mode == 'opaque' else (z3.RealVal(0) if exe.sem.num_mode == 'real' else z3.FPVal(0.0, z3.Float64()))
+
     def sizeof(tname):
         return exe.tu.sizeof(exe.tu.ctype(tname))
 
@@ -256,8 +289,8 @@ def make_helpers(exe):
         return z3.BoolVal(a._p.obj is b._p.obj)
 
     return dict(And=h_and, Or=h_or, Not=h_not, implies=h_implies, ite=h_ite, iff=h_iff, forall=forall,
-                exists=exists, u64=u64, is_pow2=is_pow2, arr=arr, off=off, NULL=NULL, pmod=pmod, imin=imin, imax=imax,
-                iabs=iabs, lit=lit, sizeof=sizeof, trunc=trunc, isnan=isnan, fp=fp, real=real, same_obj=same_obj,
+                exists=exists, u64=u64, is_pow2=is_pow2, arr=arr, off=off, NULL=NULL, pmod=pmod, elem=elem, imin=imin, imax=imax,
+                iabs=iabs, lit=lit, sizeof=sizeof, num_of_int=num_of_int, byte_of_num=byte_of_num, bool_of_num=bool_of_num, num_zero=num_zero, trunc=trunc, isnan=isnan, fp=fp, real=real, same_obj=same_obj,
                 true=z3.BoolVal(True), false=z3.BoolVal(False), z3=z3, Select=z3.Select, Store=z3.Store,
                 fpLT=z3.fpLT, fpLEQ=z3.fpLEQ, fpGT=z3.fpGT, fpGEQ=z3.fpGEQ, fpEQ=z3.fpEQ, fpAbs=z3.fpAbs,
                 fpIsInf=z3.fpIsInf, fpNeg=z3.fpNeg, ToReal=z3.ToReal, ToInt=z3.ToInt, Sum=z3.Sum)
@@ -464,7 +497,14 @@ def _h_raw8(exe, st):
     return raw8
 
 
-STATE_HELPERS = {'raw64': _h_raw64, 'rawmem': _h_rawmem, 'raw8': _h_raw8}
+def _h_now(exe, st):
+    def now(v):
+        """the pointer value v (typically old(p)) viewed in this state"""
+        return PtrView(exe, st, v._p)
+    return now
+
+
+STATE_HELPERS = {'raw64': _h_raw64, 'rawmem': _h_rawmem, 'raw8': _h_raw8, 'now': _h_now}
 
 
 def fn_resolver(exe, fn_name):
@@ -622,6 +662,9 @@ def frame_targets(exe, st, tgts, env, fn):
             for key in _paths_of(exe, q.obj, ()):
                 out.add((q.obj.id, key))
             continue
+        nonptr = tgt.endswith('.*nonptr')
+        if nonptr:
+            tgt = tgt[:-len('.*nonptr')] + '[*]'
         if tgt.endswith('.*'):
             tgt = tgt[:-2] + '[*]'
         whole = tgt.endswith('[*]')
@@ -635,6 +678,8 @@ def frame_targets(exe, st, tgts, env, fn):
             continue
         path = p.path if whole else p.path + (parts[-1],)
         for key in _paths_of(exe, p.obj, path):
+            if nonptr and isinstance(exe.leaf_type(p.obj, key), TPtr):
+                continue
             out.add((p.obj.id, key))
     return out
 
